@@ -3401,7 +3401,17 @@ impl GraphEngine {
         Ok(id)
     }
 
+    /// Striped lock serializing read-modify-write updates of one adjacency list.
+    fn edge_list_lock(&self, key: &str) -> parking_lot::RwLockWriteGuard<'_, ()> {
+        let mut hasher = std::collections::hash_map::DefaultHasher::new();
+        key.hash(&mut hasher);
+        self.index_locks[self.lock_index(hasher.finish())].write()
+    }
+
     fn add_edge_to_list(&self, key: String, edge_id: u64) -> Result<()> {
+        // The list is read, changed and written back: concurrent updates of the same
+        // list must not interleave or one of them is lost.
+        let _list_guard = self.edge_list_lock(&key);
         let mut tensor = self.store.get(&key).unwrap_or_else(|_| TensorData::new());
         let mut edges = Self::extract_edge_ids(&tensor);
         #[cfg(feature = "neumann_verif")]
@@ -6471,6 +6481,7 @@ impl GraphEngine {
     }
 
     fn remove_edge_from_list(&self, key: &str, edge_id: u64) -> Result<()> {
+        let _list_guard = self.edge_list_lock(key);
         if let Ok(mut tensor) = self.store.get(key) {
             #[cfg(feature = "neumann_verif")]
             verif_rmw_window(key);
